@@ -194,6 +194,9 @@ class PathEnum:
         if k == "const":
             if "fn" in op:
                 return ("const", "fn:" + ckey(op["fn"]), "fn")
+            if op.get("promoted_agg"):
+                pa = op["promoted_agg"]
+                return ("agg", "adt:%s::%s" % (pa["adt"], pa["variant"]), ())
             if op.get("const_def"):
                 return ("const", op["const_def"], op.get("ty"))
             return ("const", op.get("val"), op.get("ty"))
